@@ -20,8 +20,8 @@ def finish_standard(run, prop, ok, info, oracle_fail, all_mism, cfg_default="100
     # (size() vs iteration, JsonPair vs JsonPairConst, c_str() vs code() ...): a concrete failing input, not a bare disagreement
     for item in all_mism:
         cfg, (k, l, a, b) = item
-        if any(m in b for m in ("!OBS:", "!TYPED:", "BadErrorObject")) and not any(x[1] == l for x in oracle_fail):
-            oracle_fail.append((cfg, l, "the library's observers agree with each other (size/nesting/lookup/iteration, typed references, error object): " + a[:120], b))
+        if any(m in b for m in ("!OBS:", "!TYPED:", "BadErrorObject", "!NESTED-DESTINATION-DIFFERS")) and not any(x[1] == l for x in oracle_fail):
+            oracle_fail.append((cfg, l, "the library's observers agree with each other (size/nesting/lookup/iteration, typed references, error object; the same input read into a nested value of a long-lived document): " + a[:120], b))
     for item in oracle_fail[:5]:
         cfg, l, e, o = item
         run.violation(f"{prop} oracle (cfg {cfg}): {l[:140]}: expected {str(e)[:200]}; library: {o[:200]}",
